@@ -212,7 +212,8 @@ def hidden_tables(w):
             rows.append((i, type(ns).__name__, tuple(tabs)))
     from spydrnet.plugins.namespace_manager import NamespaceManager
 
-    return (tuple(rows), NamespaceManager.default)
+    # process-wide switches of the manager are state as well (a refused call must leave them alone)
+    return (tuple(rows), NamespaceManager.default, nm.default, bool(nm.ignore_ns_change))
 
 
 def describe(w, i):
